@@ -704,7 +704,16 @@ class Built(object):
                 ns['execute'] = classmethod(rec.class_operation(metadata_extractor=ext)(execute))
             else:
                 ns['execute'] = rec.operation(metadata_extractor=ext)(execute)
-        cls = genclasses.register(type(str(name), (object,), ns))
+        bases = (object,)
+        if rec is not None and prog.get('base_params') is not None:
+            # the operation class extends a base class that has recording parameters of its own (registered first, as imports do)
+            from playback.tape_recorder import RecordingParameters
+            bp = prog['base_params']
+            base = genclasses.register(type(str(name) + 'Base', (object,), {}))
+            rec.recording_params(RecordingParameters(sampling_rate=bp.get('rate', 1.0), ignore_enforced_sampling=bp.get('ignore_forced', False),
+                                                     skipped=bp.get('skipped', False), copy_data_on_intercepion=bp.get('copy', False)))(base)
+            bases = (base,)
+        cls = genclasses.register(type(str(name), bases, ns))
         if rec is not None and prog.get('params'):
             from playback.tape_recorder import RecordingParameters
             p = prog['params']
